@@ -5,6 +5,11 @@ import os
 ROOT = os.path.dirname(os.path.dirname(os.path.abspath(__file__)))
 
 CHECKS = {
+ "C11": dict(
+    text="Partial. Theorems C11_at_most_once (in the run of ANY program over the modelled API - then with value/void callbacks, rethrowing/swallowing handlers, whenAll, whenAny, settling in any order incl. twice - each continuation's fulfilment callback and rejection callback run at most once) and C11_later_outcomes_raise_nothing (a settling party gets an error only when the very promise it settles is not pending: outcomes reaching a decided whenAll/whenAny are ignored). That the fulfilment continuation runs exactly when fulfilled with the produced value, rejections propagate through rethrow, whenAll delivers values in argument order is decided by comparing the real callback log with the model's on generated programs.",
+    note="Closed under the global context. Model: depth-first continuation runs as an explicit task stack; promise-returning continuations are outside the model. Trusted: harness/h_promise.cc script interpreter (ASan build), generator.",
+    technique="Coq proof (invariant over a task-stack semantics of the promise core, all programs) + callback-log differential correspondence",
+    design="§2 C11"),
  "C12": dict(
     text="Full for the configurations the property names. Theorems C12_base, C12_derived, C12_base_and_derived, C12_two_on_derived: for EVERY schedule (any length, including grants to blocked/finished threads) of one settling thread with one or two attaching threads on the promise and on the promise derived from it: no access to a core's state or continuation list without its mutex, no deadlock, no spurious error, and at the end every continuation has run exactly once. Proof: the finite reachable set at lock/state/list granularity is computed and checked inside Coq (vm_compute) and lifted to all schedules by the closure lemma reach_closed; C12_snapshot_refuted shows the pinned snapshot's order fails. Tied to /repo by replaying all 2^14 / 3^9 schedule prefixes on the real async.h through the PISTACHE_VERIF yield points.",
     note="Closed under the global context; vm_compute over a finite state space (a few hundred states) is part of the proof. Sequentially consistent memory; callbacks do not re-enter their promise. Trusted: harness/h_promise_conc.cc, pv_sched.h, hook placement in async.h.",
